@@ -646,7 +646,7 @@ func Run(c *core.Ctx) {
 			}
 		}
 	}
-	for idx := 0; idx < c.Pick(160, 6000); idx++ {
+	for idx := 0; idx < c.Pick(160, 1600); idx++ {
 		if c.Take("fresh", idx) {
 			freshScenario(c, "fresh", idx)
 		}
